@@ -481,7 +481,10 @@ class RunA:
             pos += len(data)
             fi.end = pos
             fi.ref = None
-            if not fi.damaged and fi.kind != 'raw':
+            if not fi.damaged and fi.kind != 'raw' and 'C06' in self.props:
+                # only C06 compares decoded values; the other checks must
+                # not have every frame decoded an extra time beforehand
+                # (it perturbs the very history they examine)
                 fi.ref = self.reference(data)
                 # A frame the real encoder produced from accepted values is
                 # a valid frame whatever the decoder thinks of it: it stays
